@@ -4,6 +4,9 @@ package otlploghttp
 
 import (
 	"context"
+	"time"
+
+	sdklog "go.opentelemetry.io/otel/sdk/log"
 	"net/http"
 	"net/url"
 
@@ -18,19 +21,43 @@ const vCanStop = false
 
 type vUploader struct {
 	upload  func(context.Context) error
-	stop    func()
+	stop    func() error
 	payload []byte
 }
 
-func vNewUploader(gz bool, rc RetryConfig) *vUploader {
+// vTimeoutOpts: the client timeout dimension (d: option absent = default 10 s, p: 30 s, z: 0 = none)
+func vTimeoutOpts(to string) []Option {
+	switch to {
+	case "p":
+		return []Option{WithTimeout(30 * time.Second)}
+	case "z":
+		return []Option{WithTimeout(0)}
+	}
+	return nil
+}
+
+func vHost(host string) string {
+	if host == "" {
+		return "verif.invalid:4318"
+	}
+	return host
+}
+
+// vExporter: what the `shut` scenario drives.
+type vExporter struct {
+	export   func(context.Context) error
+	shutdown func(context.Context) error
+}
+
+func vNewHTTPClient(host string, gz bool, rc RetryConfig, to string) (*httpClient, config) {
 	comp := NoCompression
 	if gz {
 		comp = GzipCompression
 	}
-	cfg := newConfig([]Option{WithInsecure(), WithEndpoint("verif.invalid:4318"), WithRetry(rc), WithCompression(comp)})
+	cfg := newConfig(append([]Option{WithInsecure(), WithEndpoint(vHost(host)), WithRetry(rc), WithCompression(comp)}, vTimeoutOpts(to)...))
 	// newHTTPClient always clones ourTransport (the default proxy setting is non-nil) and hides the httpClient
 	// behind a method value, so the scripted RoundTripper cannot be reached through it: the httpClient is
-	// assembled here exactly as newHTTPClient does (request template, compression, retry wiring), with the
+	// assembled here exactly as newHTTPClient does (request template, compression, retry wiring, timeout), with the
 	// scripted transport. Not covered for this package: the lines of newHTTPClient themselves.
 	u := &url.URL{Scheme: "http", Host: cfg.endpoint.Value, Path: cfg.path.Value}
 	req, err := http.NewRequest(http.MethodPost, u.String(), http.NoBody)
@@ -38,12 +65,28 @@ func vNewUploader(gz bool, rc RetryConfig) *vUploader {
 		panic(err)
 	}
 	req.Header.Set("Content-Type", "application/x-protobuf")
-	c := &httpClient{
+	return &httpClient{
 		compression: cfg.compression.Value,
 		req:         req,
 		requestFunc: cfg.retryCfg.Value.RequestFunc(evaluate),
 		client:      &http.Client{Transport: vDispatch{}, Timeout: cfg.timeout.Value},
+	}, cfg
+}
+
+// the package's Exporter (Export / Shutdown) over the client with the scripted transport
+func vNewExporter(host string, rc RetryConfig, to string) *vExporter {
+	hc, cfg := vNewHTTPClient(host, false, rc, to)
+	e, err := newExporter(&client{uploadLogs: hc.uploadLogs}, cfg)
+	if err != nil {
+		panic(err)
 	}
+	recs := make([]sdklog.Record, 1)
+	recs[0].SetSeverityText("verif-c14")
+	return &vExporter{export: func(ctx context.Context) error { return e.Export(ctx, recs) }, shutdown: e.Shutdown}
+}
+
+func vNewUploader(host string, gz bool, rc RetryConfig, to string) *vUploader {
+	c, _ := vNewHTTPClient(host, gz, rc, to)
 	rl := []*logpb.ResourceLogs{{ScopeLogs: []*logpb.ScopeLogs{{LogRecords: []*logpb.LogRecord{{
 		TimeUnixNano: 1, ObservedTimeUnixNano: 2, SeverityText: "verif-c14"}}}}}}
 	payload, err := proto.Marshal(&collogpb.ExportLogsServiceRequest{ResourceLogs: rl})
@@ -52,7 +95,7 @@ func vNewUploader(gz bool, rc RetryConfig) *vUploader {
 	}
 	return &vUploader{
 		upload:  func(ctx context.Context) error { return c.uploadLogs(ctx, rl) },
-		stop:    func() {},
+		stop:    func() error { return nil },
 		payload: payload,
 	}
 }
